@@ -237,6 +237,11 @@ func vC09BuildRegistry(seed int64) (*vC09Registry, error) {
 	reg.OtherPrv = sdk.AccAddress(pr.Bytes(20))
 
 	used := map[string]bool{}
+	// every account's first valid certificate has the SAME serial number: a
+	// certificate is identified by (owner, serial), the serial is chosen by
+	// the client and public, so equal serials under different owners are legal
+	common := new(big.Int).SetUint64(pr.Uint64()>>2 | 1)
+	used[common.String()] = true
 	for a := 0; a < 4; a++ {
 		r := vs.NewRand(seed, uint64(0xC0910+a))
 		acct := &vC09Acct{Addr: sdk.AccAddress(r.Bytes(20)), Certs: map[string]*vC09ChainCert{}}
@@ -254,6 +259,9 @@ func vC09BuildRegistry(seed int64) (*vC09Registry, error) {
 				if serial.Sign() > 0 && !used[serial.String()] {
 					break
 				}
+			}
+			if kind == "valid" {
+				serial = new(big.Int).Set(common)
 			}
 			used[serial.String()] = true
 			spec := vC09Spec{CN: acct.Bech, Serial: serial, Window: "current"}
